@@ -35,7 +35,19 @@
    marker/reference bookkeeping (the case checker evaluates the complete validator model
    Model/Rules.v on every generated stream and compares); pointers into the middle of another object;
    slices sharing a backing array with different lengths; event streams that the builder stack for
-   this type answers with a panic other than the ones modelled (unknown field names, a marked null). *)
+   this type answers with a panic other than the ones modelled (unknown field names, a marked null).
+
+   Root by value.  Marshal may be handed the root struct itself (a N, not a *N).  The interface then
+   holds a COPY of the root object, which nothing points at; the graph that is written is the heap
+   with one more struct node (the copy, same payload and fields as the root object) as its root.
+   The iterator treats that root like any other unmarked object, and Unmarshal builds a *N, so
+   [graph_roundtrip] and the theorems apply to that heap as they stand; the harness hands over such
+   heaps with the copy as root (by_value_root in the case description).
+
+   Other Go types (pointers to scalars, by-value nested structs, arrays, slices / maps of structs,
+   pointers to slices / maps, roots that are arrays, slices or maps): section "Extended shapes"
+   below gives the heap language, the isomorphism relation and the supported fragment for them;
+   the library's behaviour on them is not modelled. *)
 From CE Require Export Model.Iterate.
 Open Scope N_scope.
 
@@ -618,6 +630,236 @@ Definition giso_check (h1 : heap) (r1 : ref) (h2 : heap) (r2 : ref) : bool :=
   match iso_walk h1 h2 (S (length h1)) r1 r2 [] with Some _ => true | None => false end.
 
 (* ------------------------------------------------------------------------- *)
+(* Extended shapes                                                             *)
+
+(* A second, wider heap language: Go values of any type built from int, float64, string, pointers,
+   slices, maps (scalar keys), arrays and structs — in particular the shapes the type N does not
+   have: pointers to scalars and strings (markers on values that are not containers), structs
+   nested BY VALUE that hold pointers, arrays of pointers, slices and maps whose elements are
+   structs holding pointers, pointers to slices and to maps, and roots that are not pointers
+   (a struct value, an array, a slice, a map).
+
+   A value [xval] is what a variable of the Go type holds: by-value structs and arrays are written
+   in line; a pointer, a non-empty slice and a non-empty map are references [XRef a] to a cell of
+   the heap, which is where identity lives (the address stands for duplicates.TypedPointer, as
+   above); nil pointers, nil and empty slices and maps are [XNil] (the default omit behaviour does
+   not distinguish them).  A float64 is given by its IEEE bits.
+
+   What is defined on this language: the isomorphism of pointed heaps ([xiso_check], the same
+   simultaneous walk as [iso_walk]), the embedding of the heaps of the type N ([xembed]), and the
+   fragment [x_supported] on which the round trip is asserted to give an isomorphic graph.  What
+   the library DOES with these shapes (iterator and builders for arbitrary Go types) is NOT
+   modelled: the harness runs the library, writes the original and the unmarshaled graph in this
+   language, and the case checker recomputes the isomorphism verdicts and checks the assertion for
+   the fragment.  Outside the fragment are exactly the classes on which the library loses
+   references or refuses its own document (open findings, see Props/C20.v). *)
+
+Inductive xval :=
+| XNil
+| XInt (z : Z)
+| XFlt (bits : Z)
+| XStr (s : bytes)
+| XRef (a : addr)
+| XStruct (fs : list xval)      (* fields in declaration order *)
+| XArr (es : list xval).
+Inductive xcell :=
+| XCObj (v : xval)                   (* what a pointer points at *)
+| XCSlice (es : list xval)           (* backing array and length of a slice *)
+| XCMap (kvs : list (xval * xval)).  (* a map; keys are scalars or strings *)
+Definition xheap := list (addr * xcell).
+
+Fixpoint xget (h : xheap) (a : addr) : option xcell :=
+  match h with
+  | [] => None
+  | (a', c) :: t => if a =? a' then Some c else xget t a
+  end.
+
+Definition xscalar_eqb (a b : xval) : bool :=
+  match a, b with
+  | XNil, XNil => true
+  | XInt x, XInt y | XFlt x, XFlt y => (x =? y)%Z
+  | XStr x, XStr y => bytes_eqb x y
+  | _, _ => false
+  end.
+Fixpoint xmap_find (k : xval) (kvs : list (xval * xval)) : option xval :=
+  match kvs with
+  | [] => None
+  | (k', v) :: t => if xscalar_eqb k k' then Some v else xmap_find k t
+  end.
+
+Fixpoint xsize (v : xval) : nat :=
+  match v with
+  | XStruct l | XArr l => S ((fix go (l : list xval) : nat := match l with [] => O | x :: r => (xsize x + go r)%nat end) l)
+  | _ => 1%nat
+  end.
+Definition xcell_size (c : xcell) : nat :=
+  match c with
+  | XCObj v => S (xsize v)
+  | XCSlice l => S (fold_right (fun x n => (xsize x + n)%nat) O l)
+  | XCMap kvs => S (fold_right (fun (kv : xval * xval) n => (S (xsize (snd kv)) + n)%nat) O kvs)
+  end.
+Definition xheap_size (h : xheap) : nat := fold_right (fun (ac : addr * xcell) n => (xcell_size (snd ac) + n)%nat) O h.
+
+(* the simultaneous walk: references are paired one to one, everything else is compared in place *)
+Fixpoint xiso_walk (h1 h2 : xheap) (fuel : nat) (v1 v2 : xval) (m : pairing) : option pairing :=
+  match fuel with
+  | O => None
+  | S f =>
+      let walk_list :=
+        fix wl (l1 l2 : list xval) (m : pairing) : option pairing :=
+          match l1, l2 with
+          | [], [] => Some m
+          | x :: r1, y :: r2 => match xiso_walk h1 h2 f x y m with Some m' => wl r1 r2 m' | None => None end
+          | _, _ => None
+          end in
+      match v1, v2 with
+      | XRef a, XRef b =>
+          match p_fwd a m, p_bwd b m with
+          | Some b', _ => if b' =? b then Some m else None
+          | None, Some _ => None
+          | None, None =>
+              match xget h1 a, xget h2 b with
+              | Some (XCObj x), Some (XCObj y) => xiso_walk h1 h2 f x y ((a, b) :: m)
+              | Some (XCSlice l1), Some (XCSlice l2) => walk_list l1 l2 ((a, b) :: m)
+              | Some (XCMap k1), Some (XCMap k2) =>
+                  if (length k1 =? length k2)%nat then
+                    (fix wm (kvs : list (xval * xval)) (m : pairing) : option pairing :=
+                       match kvs with
+                       | [] => Some m
+                       | (k, v) :: r =>
+                           match xmap_find k k2 with
+                           | Some v2 => match xiso_walk h1 h2 f v v2 m with Some m' => wm r m' | None => None end
+                           | None => None
+                           end
+                       end) k1 ((a, b) :: m)
+                  else None
+              | _, _ => None
+              end
+          end
+      | XStruct l1, XStruct l2 | XArr l1, XArr l2 => walk_list l1 l2 m
+      | XRef _, _ | _, XRef _ | XStruct _, _ | _, XStruct _ | XArr _, _ | _, XArr _ => None
+      | a, b => if xscalar_eqb a b then Some m else None
+      end
+  end.
+Definition xiso_check (h1 : xheap) (r1 : xval) (h2 : xheap) (r2 : xval) : bool :=
+  match xiso_walk h1 h2 (S (xheap_size h1 + xsize r1)) r1 r2 [] with Some _ => true | None => false end.
+Definition xiso_both (h1 : xheap) (r1 : xval) (h2 : xheap) (r2 : xval) : bool :=
+  xiso_check h1 r1 h2 r2 && xiso_check h2 r2 h1 r1.
+
+(* the heaps of the type N in this language (struct node: payload, then the five fields) *)
+Definition xembed_ref (h : heap) (r : ref) : xval :=
+  match r with
+  | Some a => match hget h a with
+              | Some n => if container_empty n then XNil else XRef a
+              | None => XRef a
+              end
+  | None => XNil
+  end.
+Definition xembed_node (h : heap) (n : node) : xcell :=
+  match nkind n with
+  | KStruct v => XCObj (XStruct (XInt v :: map (fun lr : label * ref => xembed_ref h (snd lr)) (nkids n)))
+  | KSlice => XCSlice (map (fun lr : label * ref => xembed_ref h (snd lr)) (nkids n))
+  | KMap => XCMap (map (fun lr : label * ref =>
+                          (match fst lr with LK k => XInt k | LF i | LI i => XInt (Z.of_N i) end, xembed_ref h (snd lr)))
+                       (nkids n))
+  end.
+Definition xembed (h : heap) : xheap := map (fun an : addr * node => (fst an, xembed_node h (snd an))) h.
+
+(* references written in a value / a cell *)
+Fixpoint xrefs (v : xval) : list addr :=
+  match v with
+  | XRef a => [a]
+  | XStruct l | XArr l => (fix go (l : list xval) : list addr := match l with [] => [] | x :: r => xrefs x ++ go r end) l
+  | _ => []
+  end.
+Definition xcell_refs (c : xcell) : list addr :=
+  match c with
+  | XCObj v => xrefs v
+  | XCSlice l => flat_map xrefs l
+  | XCMap kvs => flat_map (fun kv : xval * xval => xrefs (snd kv)) kvs
+  end.
+(* the cells reachable from a work list *)
+Fixpoint xreach_from (h : xheap) (fuel : nat) (todo seen : list addr) : list addr :=
+  match fuel with
+  | O => seen
+  | S f =>
+      match todo with
+      | [] => seen
+      | a :: r =>
+          if mem a seen then xreach_from h f r seen
+          else match xget h a with
+               | Some c => xreach_from h f (xcell_refs c ++ r) (a :: seen)
+               | None => xreach_from h f r (a :: seen)
+               end
+      end
+  end.
+Definition xreaches (h : xheap) (a b : addr) : bool :=
+  mem b (xreach_from h (S (2 * xheap_size h)) [a] []).
+
+Definition is_xstruct (v : xval) : bool := match v with XStruct _ => true | _ => false end.
+Definition is_xbyval (v : xval) : bool := match v with XStruct _ | XArr _ => true | _ => false end.
+
+(* Is there, in the value [v] held by the cell [self], a reference that sits in a by-value
+   container (a struct nested in a struct, an array, a struct or array that is an element of a
+   slice or a value of a map) and whose target leads back to [self]?  When the library writes the
+   graph such a reference can be one to an object that is still open (a back-edge). *)
+Fixpoint xbyval_cyclic (h : xheap) (self : addr) (inbyval : bool) (v : xval) : bool :=
+  match v with
+  | XRef a => inbyval && xreaches h a self
+  | XStruct l =>
+      (fix go (l : list xval) : bool :=
+         match l with [] => false | x :: r => xbyval_cyclic h self (inbyval || is_xstruct x) x || go r end) l
+  | XArr l =>
+      (fix go (l : list xval) : bool :=
+         match l with [] => false | x :: r => xbyval_cyclic h self true x || go r end) l
+  | _ => false
+  end.
+Definition xcell_supported (h : xheap) (self : addr) (c : xcell) : bool :=
+  match c with
+  | XCObj v =>
+      negb (match v with
+            | XRef a => match xget h a with Some (XCSlice _) | Some (XCMap _) => true | _ => false end  (* pointer to a slice / map *)
+            | _ => false
+            end) &&
+      negb (xbyval_cyclic h self false v)
+  | XCSlice l => forallb (fun e => negb (xbyval_cyclic h self (is_xbyval e) e)) l
+  | XCMap kvs => forallb (fun kv : xval * xval => negb (xbyval_cyclic h self (is_xbyval (snd kv)) (snd kv))) kvs
+  end.
+(* the fragment on which the round trip is asserted to give an isomorphic graph (any root) *)
+Definition x_supported (h : xheap) : bool :=
+  forallb (fun ac : addr * xcell => xcell_supported h (fst ac) (snd ac)) h.
+
+(* every address written in the heap or in the root is allocated, no address twice *)
+Definition xclosed (h : xheap) (root : xval) : bool :=
+  forallb (fun a => match xget h a with Some _ => true | None => false end)
+          (xrefs root ++ flat_map (fun ac : addr * xcell => xcell_refs (snd ac)) h) &&
+  (fix nd (seen : list addr) (h : xheap) : bool :=
+     match h with [] => true | (a, _) :: t => negb (mem a seen) && nd (a :: seen) t end) [] h.
+
+(* correspondence cases for the extended shapes *)
+Inductive shape_result :=
+| SOk (h' : xheap) (root' : xval) (verdict : bool)   (* what Unmarshal returned; the harness's own isomorphism verdict *)
+| SErr.                                              (* Marshal or Unmarshal failed *)
+Inductive shape_case :=
+| ShapeCase (h : xheap) (root : xval)                (* what was handed to Marshal *)
+            (results : list shape_result).           (* from the CBE document, from the CTE document *)
+
+Definition shape_case_ok (c : shape_case) : bool :=
+  match c with
+  | ShapeCase h root results =>
+      xclosed h root &&
+      (* 1. the isomorphism verdicts, recomputed *)
+      forallb (fun r => match r with
+                        | SOk h' r' verdict => xclosed h' r' && Bool.eqb (xiso_both h root h' r') verdict
+                        | SErr => true
+                        end) results &&
+      (* 2. inside the fragment the unmarshaled graph is isomorphic to the original *)
+      (if x_supported h
+       then forallb (fun r => match r with SOk _ _ true => true | _ => false end) results
+       else true)
+  end.
+
+(* ------------------------------------------------------------------------- *)
 (* Correspondence cases                                                        *)
 
 Inductive impl_result := IOk (h' : heap) (root' : ref) | IErr.
@@ -665,10 +907,20 @@ Definition graph_case_ok (c : graph_case) : bool :=
       (if typed h root && closed h root && no_empty_containers h && negb omit_never &&
           cover_ok h d && indeg_ok h root d
        then forallb (fun r => match r with IOk h' r' => giso_check h root h' r' && giso_check h' r' h root | IErr => false end) results
-       else true)
+       else true) &&
+      (* 6. on these heaps the isomorphism of the extended heap language (above) is the same relation *)
+      forallb (fun r => match r with
+                        | IOk h' r' =>
+                            if no_empty_containers h && no_empty_containers h'
+                            then Bool.eqb (giso_check h root h' r' && giso_check h' r' h root)
+                                          (xiso_both (xembed h) (xembed_ref h root) (xembed h') (xembed_ref h' r'))
+                            else true
+                        | IErr => true
+                        end) results
   | StreamCase rules es result =>
       let full := accepts_document default_rcfg es in
       (* the reduced validator rejects nothing the complete one accepts *)
       (negb full || vmark es) &&
       result_matches (if rules && negb full then RtRejected else build_graph es) result
   end.
+
